@@ -16,7 +16,7 @@ pub mod sched;
 pub mod selftest;
 pub mod simkind;
 
-use runner::{drive, replay, Check, Opts, ReplayFile, Tier};
+use runner::{drive, replay, stress_child, Check, Opts, ReplayFile, Tier};
 
 macro_rules! dispatch {
     ($id:expr, $f:ident, $($arg:expr),*) => {
@@ -48,6 +48,9 @@ fn drive_id(id: &str, o: &Opts) -> Option<i32> {
 }
 fn replay_id(id: &str, rf: &ReplayFile, quiet: bool) -> Option<i32> {
     dispatch!(id, replay, rf, quiet)
+}
+fn stress_id(id: &str, o: &Opts, k: usize) -> Option<i32> {
+    dispatch!(id, stress_child, o, k)
 }
 pub fn required_probes(id: &str) -> Option<Vec<&'static str>> {
     fn rp<C: Check>() -> Vec<&'static str> {
@@ -154,12 +157,50 @@ fn main() {
                 println!("{}", rf.profile);
                 std::process::exit(0);
             }
-            match replay_id(&rf.property.clone(), &rf, quiet) {
-                Some(code) => std::process::exit(code),
-                None => {
-                    eprintln!("HARNESS-ERROR: unknown property {}", rf.property);
+            if !args.iter().any(|a| a == "--in-process") {
+                // run the replay in a child process (2 MiB thread inside): an aborting library is a reproduced violation
+                let exe = std::env::current_exe().unwrap();
+                let mut cmd = std::process::Command::new(exe);
+                cmd.arg("replay").arg(&args[1]).arg("--in-process");
+                if quiet {
+                    cmd.arg("--quiet");
+                }
+                match cmd.status().map(|s| s.code()) {
+                    Ok(Some(c)) if c == 0 || c == 1 || c == 2 => std::process::exit(c),
+                    Ok(other) => {
+                        if !quiet {
+                            println!("replayed: the process ended abnormally ({:?}); recorded: [{}]", other, rf.violation.class);
+                            println!("VIOLATION property={} replay=(this file) reproduced: process aborted", rf.property);
+                        }
+                        std::process::exit(1)
+                    }
+                    Err(e) => {
+                        eprintln!("HARNESS-ERROR: cannot spawn replay child: {}", e);
+                        std::process::exit(2)
+                    }
+                }
+            }
+            let rf2 = rf.clone();
+            let h = std::thread::spawn(move || replay_id(&rf2.property.clone(), &rf2, quiet));
+            match h.join() {
+                Ok(Some(code)) => std::process::exit(code),
+                _ => {
+                    eprintln!("HARNESS-ERROR: unknown property {} or replay thread failed", rf.property);
                     std::process::exit(2)
                 }
+            }
+        }
+        "stress" => {
+            // child side of a stress case: ohsim stress <ID> <k> --tier T
+            if args.len() < 3 {
+                usage();
+            }
+            let tier = if args.iter().any(|a| a == "thorough") { Tier::Thorough } else { Tier::Quick };
+            let o = Opts { tier, seed, workers: 1, runs_override: None, verif_dir, merge_with: None, part_only: true, records_out: None };
+            let k: usize = args[2].parse().unwrap_or_else(|_| usage());
+            match stress_id(&args[1], &o, k) {
+                Some(code) => std::process::exit(code),
+                None => std::process::exit(2),
             }
         }
         "selftest" => std::process::exit(selftest::main(&args[1..])),
